@@ -67,6 +67,10 @@ EXPLANATION += (
     ' Round 10: index arrays are widened before they are multiplied by a size (R-CAP/index-arithmetic-widened); batch searches record before they stop (R-COVER/batch-search).'
 )
 
+EXPLANATION += (
+    ' Round 13: pointer windows are re-based when copied (R-SAMEVAL/pointer-window-rebased).'
+)
+
 RULE_TEXT = (
     "one obligation per step / chunk-extent site, per range relation of "
     "the dispatch loop, per piece-list mutation, per dispatcher x member")
